@@ -736,6 +736,10 @@ def extract_fn(repo, fnspec):
         body = body[:boundary] + '\n' + bottom + '\n' + body[boundary:].lstrip('\n')
     # assemble
     parts = [sig2]
+    if fnspec.get('no_termination'):
+        # termination of this function is NOT claimed (stated in the evidence through the allow-list scan)
+        parts = ['#[verifier::exec_allows_no_decreases_clause]', sig2]
+        log.append("termination not proved: #[verifier::exec_allows_no_decreases_clause]")
     for kind in ('requires', 'ensures'):
         cl = fnspec.get(kind, [])
         if cl:
